@@ -255,7 +255,7 @@ func enumPlacements(c *enumCtx) {
 			var fks []string
 			switch kind {
 			case "get":
-				fks = []string{"err", "notexist", "trunc", "flip", "corpus", "foreign"}
+				fks = []string{"err", "timeout", "notexist", "trunc", "flip", "corpus", "foreign"}
 			case "set":
 				fks = []string{"err", "err-applied"}
 			case "delete":
